@@ -1,6 +1,6 @@
 (* C06 — concrete witnesses over the reals for the behaviour before the repairs (findings FC06b, FC06c). *)
-From Coq Require Import List Reals Lra Lia Bool Arith.
-From AV Require Import lib.Num model.C06_Model proofs.C06_Lists proofs.C06_Proofs proofs.C06_PTF.
+From Coq Require Import List Reals Lra Lia Bool Arith PrimFloat.
+From AV Require Import lib.Num lib.FloatMath model.C06_Model proofs.C06_Lists proofs.C06_Proofs proofs.C06_PTF.
 Import ListNotations.
 Local Open Scope R_scope.
 
@@ -172,3 +172,33 @@ Definition w_ptf1 : ptf RNum :=
   @mkPTF RNum 1 2 3 [ @mkPC RNum 0 4 3 2 1 9 ; @mkPC RNum 1 5 3 2 1 8 ] [ @mkPR RNum 1 5 1 2 3 ] [ @mkPD RNum 0 4 1 1 ].
 Lemma w_ptf1_wf : @wf_ptf RNum 1 w_ptf1 = true.
 Proof. unfold w_ptf1. rcompute. reflexivity. Qed.
+
+(* ---- O2: a phase that is a complete grid over the wrong number of masses (climb with two) is accepted at load and
+        rejected at the first evaluation of that phase ---- *)
+Definition w_o2 : list (row RNum) :=
+  [ @mkRow RNum 0 1 7 3 9 ; @mkRow RNum 0 2 7 2 9 ;
+    @mkRow RNum 0 1 5 0 1 ; @mkRow RNum 0 2 5 0 2 ; @mkRow RNum 0 3 5 0 3 ;
+    @mkRow RNum 0 2 4 (-1) 1 ].
+
+Lemma wrong_mass_count_loads_then_rejects :
+  @load RNum swF w_o2 = None /\
+  @evaluate RNum swF (fun x => x) w_o2 Climb 0 (@MVal RNum 1) = @Rej RNum EMassCount.
+Proof. unfold w_o2, swF. split; rcompute; reflexivity. Qed.
+
+(* ---- FC06e: binary64.  FLM_f is units.FL_TO_METERS = 100 * 0.3048 as a double (link: equal to the regenerated one).
+        Level 230 expressed in metres and divided back is one ulp above 230, so with 230 as the top tabulated level
+        the tabulated state is rejected: node_exact_in_metres does not transfer to the floating-point instance. ---- *)
+Definition FLM_f : float := 0x1.e7ae147ae147bp+4%float.
+Definition w_f230 : list (row FNum) :=
+  [ @mkRow FNum 0 1 5 0 1 ; @mkRow FNum 0 2 5 0 2 ; @mkRow FNum 0 3 5 0 3 ;
+    @mkRow FNum 230 1 6 0 4 ; @mkRow FNum 230 2 6 0 5 ; @mkRow FNum 230 3 6 0 8 ]%float.
+
+Lemma node_exact_in_metres_binary64_refuted :
+  @validate FNum swF (@subset FNum Cruise w_f230) = None /\
+  In (@mkRow FNum 230 2 6 0 5)%float (@subset FNum Cruise w_f230) /\
+  PrimFloat.ltb 230 (@alt_to_fl_div FNum FLM_f (PrimFloat.mul 230 FLM_f)) = true /\
+  @evaluate FNum swF (@alt_to_fl_div FNum FLM_f) w_f230 Cruise (PrimFloat.mul 230 FLM_f) (@MVal FNum 2%float)
+    = @Rej FNum (EBounds 0) /\
+  (* where the level is handed over directly the tabulated values come back bit for bit *)
+  @evaluate FNum swF (fun x => x) w_f230 Cruise 230%float (@MVal FNum 2%float) = @Ok FNum 6%float 0%float 5%float.
+Proof. vm_compute. repeat split; auto 10. Qed.
